@@ -301,7 +301,8 @@ func new(input OmegaInput) (output OmegaOutput) {
 	newBalance := s.ServiceInfo.Balance - at
 	// otherwise if s_b < (x_s)_t, transfer a_t tokens to new service, so need to check balance(b) > minBalance()
 	minBalance := service_account.CalcThresholdBalance(s.ServiceInfo.Items, s.ServiceInfo.Bytes, s.ServiceInfo.DepositOffset)
-	if newBalance < minBalance {
+	// (x_s)_b - a_t is a difference of naturals: a_t above the balance is CASH, not a wrapped-around balance
+	if s.ServiceInfo.Balance < at || newBalance < minBalance {
 		input.VM.Registers[7] = CASH
 		return OmegaOutput{
 			ExitReason: ExitContinue,
